@@ -49,6 +49,8 @@ type cell struct {
 	L   []string
 	NN  bool
 	Src string
+	SrcBase string
+	Under *Val
 }
 
 type deferred struct {
@@ -95,6 +97,7 @@ type State struct {
 	pendingHavoc []string
 	Shared []string
 	Entry  map[int]*entrySnap
+	Owner  map[string]string // fresh ref -> the fresh object whose field holds it
 	LoopHeap map[*ssa.BasicBlock]map[string]string // heap snapshot at the entry of each loop (loopentry())
 	// Private: refs of struct objects allocated here whose address provably never escapes this body.
 	Private map[string]bool
@@ -116,6 +119,7 @@ func (s *State) clone() *State {
 		Shared: s.Shared,
 		Private: s.Private,
 		LoopHeap: s.LoopHeap,
+		Owner:  s.Owner,
 		Entry:  s.Entry,
 		Epoch:  s.Epoch,
 		pendingHavoc: s.pendingHavoc[:len(s.pendingHavoc):len(s.pendingHavoc)],
